@@ -282,6 +282,12 @@ fn plan_base(prop: &str) -> Vec<Item> {
                 }
             }
             v.push(it("fd_result", "pool=1,mode=5,selfwake=1", Some(2), 3));
+            // operations on healthy objects after pool threads were lost to panics
+            v.push(it("panic_contain", "pool=1,ctx=0", Some(2), 3));
+            v.push(it("panic_contain", "pool=1,ctx=3", Some(2), 3));
+            v.push(it("panic_contain", "pool=2,ctx=0", Some(1), 2));
+            v.push(it("panic_many", "pool=2,keep=1", Some(1), 2));
+            v.push(it("panic_many", "pool=3,keep=2", Some(1), 2));
             v.push(it("fd_result", "pool=1,mode=2,after=1", Some(2), 3));
             v.push(it("wake_ctx", "pool=1,kind=0,ctx=0,wake=0", Some(2), 4));
             v.push(it("pipe_in_items", "pool=1,n=2,pat=1,conc=2", Some(1), 2));
@@ -316,6 +322,11 @@ fn plan_base(prop: &str) -> Vec<Item> {
             v.push(it("f3_nested_sync", "pool=1", Some(3), 4));
             v.push(it("sync_wipe", "pool=1", Some(2), 3));
             v.push(it("sync_wipe", "pool=2", Some(1), 2));
+            // a desync from one more thread lands at an arbitrary moment (e.g. between an owner handing the queue back and its
+            // rescheduling call) while sync callers are blocked behind the owner
+            for (pool, st, n) in [(0, 4, 1), (0, 0, 2), (0, 2, 1), (1, 4, 1), (0, 5, 1)] {
+                v.push(it("sync_states", &format!("pool={},st={},n={},racer=1", pool, st, n), Some(2), 3));
+            }
             v.push(it("f3_sync_sync", "pool=0", Some(3), 5));
             v.push(it("fd_result", "pool=0,mode=3", Some(3), 4));
             v.push(it("fd_result", "pool=0,mode=3,k=2", Some(3), 4));
@@ -503,6 +514,11 @@ fn plan_base(prop: &str) -> Vec<Item> {
             // (the seeded spawn race C10-c needs 2 preemptions here)
             v.push(it("indep_race", "pool=3,n=2", Some(1), 2));
             v.push(it("indep_race", "pool=3,n=3", Some(0), 1));
+            // several pool threads die in panics while one object stays blocked: free objects are still served
+            for keep in [0, 1, 2] {
+                v.push(it("panic_many", &format!("pool=3,keep={}", keep), Some(1), 2));
+            }
+            v.push(it("panic_many", "pool=2,keep=1", Some(2), 3));
             // a caller is despawning surplus threads (one of them pinned) while free objects are used
             v.push(it("indep_despawn", "pool=2,keep=1", Some(2), 3));
             for keep in [0, 1, 2] {
@@ -533,6 +549,9 @@ fn plan_base(prop: &str) -> Vec<Item> {
                 v.push(it("pipe_in_items", &format!("pool=1,n={},pat=1,conc=0,late=1", n), Some(2), 3));
             }
             v.push(it("pipe_in_items", "pool=1,n=2,pat=0,conc=1,late=1", Some(1), 2));
+            // the input wakes its own waker from inside poll_next, after the last owner of the Desync has gone
+            v.push(it("pipe_in_items", "pool=1,n=1,pat=9,conc=0,dropmid=1,inpoll=1", Some(2), 3));
+            v.push(it("pipe_in_items", "pool=2,n=1,pat=9,conc=0,dropmid=1,inpoll=2", Some(1), 2));
             // the producer wakes under a lock that the input stream's destructor takes
             v.push(it("pipe_in_items", "pool=1,n=1,pat=1,conc=0,fin=1,wl=1", Some(2), 3));
             v.push(it("pipe_in_items", "pool=1,n=1,pat=1,conc=0,fin=0,wl=1", Some(2), 3));
@@ -587,6 +606,11 @@ fn plan_base(prop: &str) -> Vec<Item> {
             }
             v.push(it("suspend", "pool=1,resume=0,sync=1,stale=2", Some(1), 2));
             v.push(it("suspend", "pool=2,resume=0,sync=0,stale=2", Some(1), 2));
+            // another thread schedules on the queue while the suspend request is being made
+            for pool in [0, 1, 2] {
+                v.push(it("suspend", &format!("pool={},resume=0,sync=0,race=1", pool), Some(if pool == 2 { 1 } else { 2 }), if pool == 2 { 2 } else { 3 }));
+            }
+            v.push(it("suspend", "pool=1,resume=1,sync=1,race=1", Some(1), 2));
             for pool in [0, 1, 2] {
                 for resume in [0, 1] {
                     for sync in [0, 1] {
@@ -613,6 +637,9 @@ fn plan_base(prop: &str) -> Vec<Item> {
             }
             v.push(it("panic_contain", "pool=0,ctx=4", Some(2), 3));
             v.push(it("panic_contain", "pool=0,ctx=5", Some(2), 3));
+            for (pool, keep) in [(2, 0), (2, 1), (3, 0), (3, 2)] {
+                v.push(it("panic_many", &format!("pool={},keep={}", pool, keep), Some(1), 2));
+            }
         }
         "C15x" => {}
         "C16" => {
@@ -709,7 +736,8 @@ pub fn owners(scenario: &str, part: &str) -> Vec<&'static str> {
         "indep" | "indep_stale" | "indep_race" | "indep_despawn" => vec!["C10"],
         "drop_obj" => vec!["C05"],
         "suspend" => vec!["C13"],
-        "panic_contain" => vec!["C15"],
+        "panic_contain" => vec!["C15", "C03"],
+        "panic_many" => vec!["C15", "C10", "C03"],
         "pool_census" => vec!["C17", "C03"],
         "excl_susp" => vec!["C06", "C01", "C09", "C08"],
         "excl_drop" => vec!["C07", "C01", "C04"],
